@@ -97,16 +97,13 @@ Definition spec_line_in (f : fview) (c : ictx) (hint : type_hint) : res (list to
 Definition plain_field (f : fview) (c : ictx) : Prop :=
   fv_has_parent f = false /\ is_variant c = false /\ c_post_init c = false.
 
-(* the one cell where into_existing drops the child path (finding F-03b): positional counterpart, field without instruction *)
-Definition f03b_cell (f : fview) (c : ictx) (hint : type_hint) : Prop :=
-  is_into_existing (c_kind c) = true /\ dest_named (fv_member f) hint = Some false /\ fv_attr f = None /\ fv_child f <> None.
-
+(* (the cell where into_existing dropped the child path - finding F-03b: positional counterpart, field without instruction - was
+   repaired in /repo; the theorem now covers every cell) *)
 Theorem line_out : forall f c hint idx,
-    plain_field f c -> is_from (c_kind c) = false -> ~ f03b_cell f c hint ->
+    plain_field f c -> is_from (c_kind c) = false ->
     render_struct_line f c hint idx None = spec_line_out f c hint idx.
 Proof.
-  intros f c hint idx [Hp [Hv Hpi]] Hk Hcell.
-  unfold f03b_cell in Hcell.
+  intros f c hint idx [Hp [Hv Hpi]] Hk.
   unfold render_struct_line, spec_line_out, value_out, place_named, place_positional, own, obj_of, dest_named, path_of in *.
   rewrite Hv, Hpi, Hk.
   destruct (fv_child f) as [ch|];
@@ -114,26 +111,11 @@ Proof.
     cbn [is_from] in Hk; try discriminate Hk;
     cbn [is_intoish is_into_existing is_from hint_su hint_tu hint_eqb andb orb negb is_named_member bind member_tok app] in *;
     try rewrite Hp; try reflexivity;
-    try (exfalso; apply Hcell; repeat split; congruence);
     repeat match goal with
            | |- context [get_field_name_or ?a ?m] => destruct (get_field_name_or a m); cbn [bind]; try reflexivity
            | |- context [get_ident ?a] => destruct (get_ident a); cbn [bind]; try reflexivity
            | |- context [get_action_or ?a ?p ?c ?o] => destruct (get_action_or a p c o); cbn [bind]; try reflexivity
            end.
-Qed.
-
-Lemma line_out_f03b_refuted :
-  exists f c hint idx, plain_field f c /\ is_from (c_kind c) = false /\ f03b_cell f c hint /\
-                       render_struct_line f c hint idx None <> spec_line_out f c hint idx.
-Proof.
-  exists {| fv_member := MIndex 0; fv_idx := 0; fv_str := "0"; fv_ty := None; fv_child := Some [MIndex 0]; fv_ghost := None;
-            fv_has_parent := false; fv_has_pl_parent := false; fv_pparent := None; fv_attr := None |}.
-  exists {| c_kind := OwnedIntoExisting; c_fallible := false;
-            c_core := {| tc_ty := {| tp_path := []; tp_str := "D"; tp_generics := None; tp_nameless := false |}; tc_err := None; tc_hint := HUnspecified;
-                         tc_init := None; tc_update := None; tc_qret := None; tc_default := None; tc_repeat := None; tc_skip := false; tc_stop := false;
-                         tc_attr := None; tc_impl_attr := None; tc_inner_attr := None |};
-            c_hint := HUnspecified; c_impl_type := ITStruct; c_dst := []; c_src := []; c_post_init := false; c_named := false |}.
-  exists HUnspecified, 0. repeat split; try reflexivity; try discriminate.
 Qed.
 
 Theorem line_in : forall f c hint idx,
